@@ -35,8 +35,8 @@ def step_obligations(prefix, kinds, tier, maxd, maxc, symflags=False, free=False
     obs = []
     for ki, k in enumerate(kinds):
         ars = (arities or ARITIES).get(k if k in ARITIES else "@other")
-        if quick or not symargs:
-            ars = ars[-1:]
+        if (quick and k not in ("function", "macro")) or not symargs:
+            ars = ars[-1:]          # (implementing definitions with <= 2 and with > 2 arguments are both kept in the quick tier)
         for na in ars:
             al = alen or (2 if quick else 3)
             nl = namelen or (2 if quick else 3)
